@@ -339,6 +339,9 @@ def run(F, R, tier, M=None):
                     "indeterminate on a fresh object (undefined behaviour when read, non-deterministic output)" % (fl["name"], rn),
                     key="J|%s|%s" % (rn, fl["name"]))
 
+    # ---- L constant subscripts of SLHA lines --------------------------------------------------------------------------
+    R.guard(_line_subscripts, F, R)
+
     # ---- K definite assignment of entry-wise built Eigen locals ----------------------------------------------------
     R.guard(_eigen_locals, F, R)
 
@@ -451,6 +454,71 @@ def _check_diagnostics(F, R, VS, main, prog):
         # handler case: print_error in the same handler body counts (before covers siblings)
         R.check("C", ok, "%s @%s" % (f["name"], n.get("l")), F.loc(f, n), why,
                 key="C|%s|%s" % (f["name"], n.get("k")))
+
+
+def _line_subscripts(F, R):
+    """line[k] on an SLHAea::Line is an unchecked std::vector subscript: it needs line.size() > k on its path"""
+    R.rule("L", "every constant subscript line[k] of an SLHA line (an unchecked vector access) is dominated by a test that the line has "
+                "more than k fields (size() >= k+1 / size() > k, as an enclosing condition or an earlier conjunct of the same &&)", 9)
+    for k_, f in sorted(F.functions.items()):
+        if not (f["file"].startswith("src/gm2_slha_io") or f["file"] == "src/gm2calc.cpp"):
+            continue
+        S = None
+        seen = set()
+        for n in walk(f["body"]):
+            if not (n.get("k") == "CXXOperatorCallExpr" and n.get("op") == "[]" and len(n.get("c", [])) == 3):
+                continue
+            obj, idx = strip_all(n["c"][1]), strip_all(n["c"][2])
+            if obj is None or "SLHAea::Line" not in str(obj.get("t") or "") or idx is None:
+                continue
+            kv = idx.get("iv", idx.get("v"))
+            if kv is None:
+                continue
+            kk = int(kv)
+            if (n.get("l"), n.get("i")) in seen:
+                continue
+            seen.add((n.get("l"), n.get("i")))
+            S = S or Struct(f)
+            conds = [(c, pol) for c, pol in S.guards(n) if c != "switch"]
+            # earlier conjuncts of an enclosing && (short-circuit evaluation)
+            cur = n
+            for a in S.ancestors(n):
+                if a.get("k") == "BinaryOperator" and a.get("op") == "&&" and len(a.get("c", [])) == 2:
+                    if any(y is cur for y in walk(a["c"][1])) or a["c"][1] is cur:
+                        conds.append((a["c"][0], True))
+                cur = a
+            ok = False
+            for c, pol in conds:
+                if pol is not True:
+                    continue
+                for q in conjuncts(c):
+                    q = strip_all(q)
+                    if q is None or q.get("k") != "BinaryOperator" or q.get("op") not in (">", ">=", "<", "<="):
+                        continue
+                    l, r = strip_all(q["c"][0]), strip_all(q["c"][1])
+
+                    def is_size(u):
+                        return u is not None and is_call(u) and str(u.get("fn") or "").endswith("::size") and \
+                            same_expr(call_object(u), obj)
+
+                    def lit(u):
+                        v_ = u.get("iv", u.get("v")) if u is not None else None
+                        try:
+                            return int(v_)
+                        except (TypeError, ValueError):
+                            return None
+                    if is_size(l) and lit(r) is not None:
+                        bound = lit(r) + (1 if q["op"] == ">" else 0) if q["op"] in (">", ">=") else None
+                    elif is_size(r) and lit(l) is not None:
+                        bound = lit(l) + (1 if q["op"] == "<" else 0) if q["op"] in ("<", "<=") else None
+                    else:
+                        bound = None
+                    if bound is not None and bound >= kk + 1:
+                        ok = True
+            R.check("L", ok, "%s: line[%d] under size() >= %d" % (f["name"].split("::")[-1], kk, kk + 1), F.loc(f, n),
+                    "line[%d] is read without a dominating test that the line has at least %d fields: a short line (e.g. a block header "
+                    "ending in `Q=`) makes this an out-of-bounds read" % (kk, kk + 1),
+                    key="L|%s|%d|%s" % (re.sub(r"<.*", "", f["name"].split("::")[-1]), kk, n.get("l")))
 
 
 def _eigen_locals(F, R):
